@@ -250,7 +250,7 @@ func TestC17(t *testing.T) {
 	_, nsh := shard()
 	n := 100000
 	if thorough() {
-		n = 2000000
+		n = 6000000
 	}
 	n /= nsh
 	reserved := []string{"if", "then", "else", "elif", "fi", "do", "done", "case", "esac", "for", "in", "while", "until", "{", "}", "!"}
